@@ -41,6 +41,11 @@ SCRIPTS = {
           ("run-step", st({"constants": {"k": 7.0}})), ("session-results", None)],
     "E": [("start", None), ("begin-session", bs({"constants": {"k": 1.5}, "points": {"lk": [[0.0, 1.0], [8.0, 1.0]]}})), ("stream-steps", None),
           ("session-results", None), ("begin-session", bs({"constants": {"k": 2.5}})), ("run-step", None), ("stop-instance", None)],
+    # short life cycles (all of it within the 5 requests of the quick tier): an instance that is stopped while / before another one starts,
+    # sessions of equal length asked for their results, an instance started with a partial timeout dictionary that then times out
+    "F": [("start", None), ("begin-session", bs({"constants": {"k": 7.0}, "points": {"lk": [[0.0, 5.0], [8.0, 5.0]]}})), ("run-step", None), ("session-results", None), ("stop-instance", None)],
+    "G": [("start", None), ("begin-session", bs(None)), ("run-step", None), ("session-results", None), ("flat-session-results", None)],
+    "H": [("start", {"timeout": {"seconds": 5}}), ("begin-session", bs({"constants": {"k": 2.0}})), ("advance", 10), ("sweep", None), ("run-step", None)],
 }
 
 
@@ -57,8 +62,13 @@ def execute(order, names, n):
         for nm in order:
             kind, payload = SCRIPTS[nm][:n][pos[nm]]
             pos[nm] += 1
+            if kind == "sweep":
+                # any request makes the server look for timed-out instances; the body of this one lists all instances and is not compared
+                r = client.get("/full-metrics")
+                out[nm].append((r.status_code, "sweep"))
+                continue
             if kind == "start":
-                r = client.post("/start-instance")
+                r = client.post("/start-instance") if payload is None else client.post("/start-instance", json=payload)
                 b = srv.body(r)
                 ids[nm] = b.get("instance_uuid")
                 b = dict(b, instance_uuid="<id>")
@@ -134,27 +144,32 @@ def _work(arg):
 def run(ctx):
     n = 5 if ctx.tier == "quick" else 7
     pairs = [("A", "B"), ("A", "C"), ("B", "D"), ("C", "E"), ("D", "E")] if ctx.tier == "quick" else list(itertools.combinations("ABCDE", 2))
+    short = [("F", "G"), ("F", "H"), ("G", "H")] + ([("A", "F"), ("E", "G"), ("D", "H")] if ctx.tier == "thorough" else [])
     jobs = []
     for names in core.rot(pairs, ctx.seed):
         orders = list(merges(names, n))
         for part in core.chunks(orders, 8):
             jobs.append((names, n, part))
+    for names in core.rot(short, ctx.seed):
+        for part in core.chunks(list(merges(names, 5)), 8):
+            jobs.append((names, 5, part))
     if ctx.tier == "thorough":
-        for names in (("A", "B", "C"), ("B", "D", "E")):
+        for names in (("A", "B", "C"), ("B", "D", "E"), ("F", "G", "H")):
             orders = list(merges(names, 3))
             for part in core.chunks(orders, 16):
                 jobs.append((names, 3, part))
     res = core.pmap(_work, jobs)
-    total = 0
+    total = trans = 0
     for (names, nn, part), (viol, cnt) in zip(jobs, res):
         total += cnt
+        trans += cnt * len(names) * nn
         for sig, case, detail in viol:
             ctx.violation("C16/" + sig, case, detail)
     ctx.finish({
-        "states": total, "transitions": total * 2 * n, "traces_validated_against_impl": total,
+        "states": total, "transitions": trans, "traces_validated_against_impl": total,
         "samples": [{"scripts": list(jobs[0][0]), "order": jobs[0][2][0]}, {"scripts": list(jobs[-1][0]), "order": jobs[-1][2][-1]}],
-        "rule": "all merges C(2n, n) of two request scripts of n = %d requests for %d script pairs%s; states = merged executions, transitions = requests issued; "
-                "every merged execution is compared per instance with the solo replay" % (n, len(pairs), " and all merges of three scripts of 3 requests" if ctx.tier == "thorough" else ""),
+        "rule": "all merges C(2n, n) of two request scripts of n = %d requests for %d script pairs, of 5 requests for %d more pairs%s; states = merged executions, transitions = requests issued; "
+                "every merged execution is compared per instance with the solo replay" % (n, len(pairs), len(short), " and all merges of three scripts of 3 requests" if ctx.tier == "thorough" else ""),
         "scripts": {k: [x[0] for x in v] for k, v in SCRIPTS.items()},
     }, assumptions=["instances come from a factory that builds a fresh model and bptk object per call", "interleaving at request granularity (sub-request interleavings: C18)"])
 
